@@ -108,8 +108,18 @@ func (d *DFS) one(prefix []int) (Exec, bool) {
 	if d.DetCheck > 0 && x.Err == "" {
 		d.DetCheck--
 		x2 := d.Run(prefix)
-		if x2.Trace != x.Trace || x2.Res.Outcome != x.Res.Outcome || (x.Res.Viol == "") != (x2.Res.Viol == "") {
+		switch {
+		case x2.Res.Outcome != x.Res.Outcome || (x.Res.Viol == "") != (x2.Res.Viol == ""):
 			w.Harness(fmt.Sprintf("nondeterministic replay of %v: trace/outcome differ (%q vs %q)", c, x.Res.Outcome, x2.Res.Outcome))
+		case x2.Trace != x.Trace:
+			// Same observable result, another sequence of scheduling points: the second run of one
+			// schedule in this process took other code paths - state that outlives an execution
+			// (a package-level cache or pool in the code under test). A stateless explorer cannot
+			// enumerate such a scenario; it is given up, loudly, rather than explored unsoundly.
+			w.Cap(fmt.Sprintf("%s: two runs of one schedule differ in their scheduling points although they end alike (process-global state?): scenario not explored", d.Unit))
+			d.capped = true
+			w.Record(c, Result{Outcome: "not-repeatable"})
+			return x, false
 		}
 	}
 	if x.Err != "" {
